@@ -120,6 +120,7 @@ OBLIGATIONS['C16'] = [
     ('common::RegisteredLabelWithPrivate::cmp', 'body'), ('common::RegisteredLabelWithPrivate::partial_cmp', 'body'),
     ('common::lemma_label_eq_cmp', 'lemma'), ('common::lemma_label_cmp_laws', 'lemma'), ('common::lemma_label_obeys_cmp', 'lemma'),
     ('common::lemma_reglabel_obeys_cmp', 'lemma'), ('common::lemma_rl_as_label_injective', 'lemma'),
+    ('common::lemma_regp_as_label_injective', 'lemma'), ('common::lemma_regp_order_laws', 'lemma'),
     ('vprelude::lemma_lex_*', 'lemma'),
     ('vcbor::lemma_label_order_is_encoding_order', 'lemma'), ('vcbor::lemma_cmp_canonical_is_len_first', 'lemma'),
     ('vcbor::lemma_head_mono_concat', 'lemma'), ('vcbor::lemma_head_major_order', 'lemma'), ('vcbor::lemma_lex_concat', 'lemma'),
